@@ -48,7 +48,52 @@ func script(seed int64, idx int) {
 	faults := 0
 	nSteps := 6 + rng.Intn(10)
 	for st := 0; st < nSteps; st++ {
-		switch x := rng.Intn(20); {
+		switch x := rng.Intn(22); {
+		case x == 20: // one polling round spans several pages and a later page request fails once
+			n := page + 1 + rng.Intn(3)
+			if page == 100 {
+				n = 3
+			}
+			m := []string{"500", "garbage"}[rng.Intn(2)]
+			which := 2 + rng.Intn(2)
+			w.Sim.Mutate("emit-multi-page-round", func(s *alphsim.Sim) {
+				b := w.NewBlock(s, false)
+				for i := 0; i < n; i++ {
+					w.EmitTx(s, b, "transfer", 0, false)
+				}
+				if s.Faults["page"] == nil {
+					s.Faults["page"] = map[int]string{}
+				}
+				s.Faults["page"][s.CountKind2("page")+which] = m
+			})
+			faults++
+			w.Tr(fmt.Sprintf("emit %d final transfers in one block (page limit %d) and answer page request #%d of the coming round with %s", n, page, which, m))
+			vlib.CCount("multi_page_rounds_with_failing_page", 1)
+			vlib.CCount("faults_injected", 1)
+		case x == 21: // messages are delivered, then one request of the idle polling loop fails (the supervisor restarts the watcher)
+			n := 1 + rng.Intn(3)
+			w.Sim.Mutate("emit-then-restart", func(s *alphsim.Sim) {
+				b := w.NewBlock(s, false)
+				for i := 0; i < n; i++ {
+					w.EmitTx(s, b, []string{"transfer", "attest"}[rng.Intn(2)], 0, false)
+				}
+			})
+			w.Tr(fmt.Sprintf("emit %d final messages in one block", n))
+			if !wait(3) {
+				break
+			}
+			kind := []string{"count", "count", "height"}[rng.Intn(3)]
+			w.Sim.WithLock(func() {
+				if w.Sim.Faults[kind] == nil {
+					w.Sim.Faults[kind] = map[int]string{}
+				}
+				w.Sim.Faults[kind][w.Sim.CountKind2(kind)+1] = "500"
+			})
+			faults++
+			w.Tr("fault: 500 on the next " + kind + " request of the idle polling loop (watcher restart)")
+			vlib.CCount("restarts_after_delivery", 1)
+			vlib.CCount("faults_injected", 1)
+			time.Sleep(300 * time.Millisecond)
 		case x < 7: // new block with 1-3 transactions (x == 7: staggered pattern below)
 			fresh := rng.Intn(2) == 0
 			n := 1 + rng.Intn(3)
